@@ -14,7 +14,7 @@
 # limitations under the License.
 
 from dataclasses import asdict, is_dataclass
-from typing import Any
+from typing import Any, Tuple
 
 
 def dataclass_to_dict(obj: Any) -> Any:
@@ -42,3 +42,50 @@ def format_colang_parsing_error_message(exception, colang_content):
         column = 1
     marker = " " * (column - 1) + "^"
     return f"{exception}:\n{line}\n{marker}"
+
+
+def scan_colang_line(line: str, in_docstring: bool) -> Tuple[str, bool, bool]:
+    """Separates the code on a line of Colang 2.x from docstring text and comments.
+
+    A `#` only starts a comment outside of string literals and docstrings, and triple
+    quotes only delimit a docstring outside of comments and string literals.
+
+    Args:
+        line: The line (without the line break).
+        in_docstring: Whether the line starts inside a docstring.
+
+    Returns:
+        The code on the line (without docstring text and without the comment), whether
+        part of the line belongs to a docstring, and whether a docstring is still open
+        at the end of the line.
+    """
+    code = []
+    has_docstring = in_docstring
+    i = 0
+    while i < len(line):
+        if in_docstring:
+            end = line.find('"""', i)
+            if end == -1:
+                break
+            in_docstring = False
+            i = end + 3
+        elif line.startswith('"""', i):
+            in_docstring = True
+            has_docstring = True
+            i += 3
+        elif line[i] in "\"'":
+            # A string literal ends on the same line
+            start = i
+            quote = line[i]
+            i += 1
+            while i < len(line) and line[i] != quote:
+                i += 2 if line[i] == "\\" else 1
+            i += 1
+            code.append(line[start:i])
+        elif line[i] == "#":
+            break
+        else:
+            code.append(line[i])
+            i += 1
+
+    return "".join(code), has_docstring, in_docstring
